@@ -852,6 +852,11 @@ func (en *env) call(x *ast.CallExpr, want types.Type) TV {
 					}
 				}
 			}
+			if es == nil && len(x.Args) == 1 {
+				if _, isPtr := sv.Base.T.Underlying().(*types.Pointer); isPtr {
+					es = smt.Int // a slice of pointers: the array of references
+				}
+			}
 			if es == nil {
 				en.errf("arr() of a slice with non-scalar elements")
 			}
@@ -859,6 +864,28 @@ func (en *env) call(x *ast.CallExpr, want types.Type) TV {
 			for _, i := range sv.Base.Idxs {
 				h = c.Select(h, i)
 			}
+			return TV{V: Scalar{h}, T: &RawSort{S: h.Sort}}
+		case "heap":
+			// heap(x.f): the whole heap of field f (reference -> value) over all objects of x's type, as a raw
+			// SMT array; lets a recursive specification function read a field through an array of references
+			if len(x.Args) != 1 {
+				en.errf("heap(x.f) wants one argument")
+			}
+			p := en.addrOf(x.Args[0])
+			pv, ok := p.V.(PtrV)
+			if !ok || len(pv.L.Idxs) != 1 {
+				en.errf("heap(%s): not a field of a heap object", types.ExprString(x.Args[0]))
+			}
+			fs := r.scalarSort(pv.L.T)
+			if fs == nil {
+				if _, isPtr := pv.L.T.Underlying().(*types.Pointer); isPtr {
+					fs = smt.Int
+				}
+			}
+			if fs == nil {
+				en.errf("heap(%s): non-scalar field", types.ExprString(x.Args[0]))
+			}
+			h := en.state().getPV(pv.L.Heap, r.heapSort(1, fs))
 			return TV{V: Scalar{h}, T: &RawSort{S: h.Sort}}
 		case "store":
 			// store(a, i, v): the raw SMT array a updated at i
